@@ -5,7 +5,7 @@
 Require Extraction.
 Require Import ExtrOcamlBasic.
 From Coq Require Import ZArith List Bool.
-From V Require Import base.Cal gen.RdTables rd.RdBase rd.RdModel rd.RdAlgModel rd.RdAlgSpec.
+From V Require Import base.Cal gen.RdTables rd.RdBase rd.RdModel rd.RdAlgModel rd.RdAlgSpec rd.RdAlgQModel.
 Import ListNotations.
 Open Scope Z_scope.
 
@@ -162,6 +162,14 @@ Definition dispatch (n : Z) (args : list Z) : list Z :=
   | 30 => with5 d_z d_pos d_z d_pos d_kw args (fun yn yd mn md k => e_res e_rd (mk_frac yn yd mn md k))
   | 31 => with1 d_rd args (fun d => e_res e_rd (mk (fields_of d)))
   | 32 => with2 d_rd d_rel args (fun d t => e_rd (add_td d (f_days t) (f_seconds t) (f_us t)))
+  | 33 => with3 d_rd d_z d_pos args (fun d p q => e_rd (mul_q d p q))
+  (* rational idealisation of float-valued fields: denominator, then the delta of numerators *)
+  | 50 => with2 d_pos d_rd args (fun D d => e_rd (ctor_q (Z.pos D) d))
+  | 51 => with2 d_pos d_rd args (fun D d => e_rd (normalized_q (Z.pos D) d))
+  | 52 => with2 d_pos d_rd args (fun D d => e_rd (neg_q (Z.pos D) d))
+  | 53 => with2 d_pos d_rd args (fun D d => e_rd (abs_q (Z.pos D) d))
+  | 54 => with3 d_pos d_rd d_rd args (fun D a b => e_rd (add_q (Z.pos D) a b))
+  | 55 => with3 d_pos d_rd d_rd args (fun D a b => e_rd (sub_q (Z.pos D) a b))
   (* specs *)
   | 40 => with1 d_rel args (fun r => e_rel (spec_fix_rel r))
   | 41 => with2 d_rd d_rd args (fun a b => [e_b (spec_eqb a b)])
